@@ -5,6 +5,8 @@ import Infretis.Lemmas.ReadersTrr
 import Infretis.Lemmas.ReadersObj
 import Infretis.Lemmas.ReadersTrrData
 import Infretis.Lemmas.ReadersGmx
+import Infretis.Lemmas.ReadersLmpAny
+import Infretis.Lemmas.ReadersObjAny
 /-!
 # C13 — on-the-fly trajectory readers never return a torn frame
 
@@ -57,6 +59,7 @@ theorem wF1_wf : wF1.WF 2 where
   cntTok := ⟨['2'], [], by decide, by decide⟩
   cmt := isLine_of _ ['c', 'o', 'm', 'm', 'e', 'n', 't'] rfl (by decide)
   natoms := rfl
+  nocr := by decide
   atoms := by
     intro a ha
     simp only [wF1, List.mem_cons, List.not_mem_nil, or_false] at ha
@@ -69,6 +72,7 @@ theorem wF2_wf : wF2.WF 2 where
   cntTok := ⟨['2'], [], by decide, by decide⟩
   cmt := isLine_of _ ['c', 'o', 'm', 'm', 'e', 'n', 't'] rfl (by decide)
   natoms := rfl
+  nocr := by decide
   atoms := by
     intro a ha
     simp only [wF2, List.mem_cons, List.not_mem_nil, or_false] at ha
@@ -245,6 +249,7 @@ theorem wU_wf : wU.WF 1 where
   cntTok := ⟨['1'], [], by decide, by decide⟩
   cmt := isLine_of _ [' ', 'a', ' ', '=', ' ', '5', ' ', '\xc3', '\x85'] rfl (by decide)
   natoms := rfl
+  nocr := by decide
   atoms := by
     intro a ha
     simp only [wU, List.mem_cons, List.not_mem_nil, or_false] at ha
@@ -332,6 +337,7 @@ theorem wL1_wf : wL1.WF 1 where
   b2 := ⟨isLine_of _ ['0', ' ', '1'] rfl (by decide), by decide, by decide⟩
   l8 := isLine_of _ ['A'] rfl (by decide)
   natoms := rfl
+  nocr := by decide
   atoms := by
     intro a ha
     simp only [wL1, List.mem_cons, List.not_mem_nil, or_false] at ha
@@ -352,6 +358,7 @@ theorem wL2_wf : wL2.WF 1 where
   b2 := ⟨isLine_of _ ['0', ' ', '2', ' ', '0'] rfl (by decide), by decide, by decide⟩
   l8 := isLine_of _ ['A'] rfl (by decide)
   natoms := rfl
+  nocr := by decide
   atoms := by
     intro a ha
     simp only [wL2, List.mem_cons, List.not_mem_nil, or_false] at ha
@@ -1018,6 +1025,7 @@ theorem wLT_wf : wLT.WF 1 where
   b2 := ⟨isLine_of _ ['0', ' ', '1'] rfl (by decide), by decide, by decide⟩
   l8 := isLine_of _ ['A'] rfl (by decide)
   natoms := rfl
+  nocr := by decide
   atoms := by
     intro a ha
     simp only [wLT, wL1, List.mem_cons, List.not_mem_nil, or_false] at ha
@@ -1078,5 +1086,182 @@ example : (∀ x ∈ [' ', '\t'], isBlank x = true ∧ x ≠ '\n')
     ∧ lmpReader .repaired ((['a', 'b'] ++ ([' ', '\t'] ++ '\n' :: ['T', '\n'])).take 5) 2 = .ok ([], 5)
     ∧ lmpReader .repaired ((['a', 'b'] ++ ([' ', '\t'] ++ '\n' :: ['T', '\n'])).take 4) 2 = .ok ([], 2) := by
   refine ⟨by decide, by decide, by decide⟩
+
+/-! ## LAMMPS, EVERY cut, any white space behind the trailing ids: the per-frame-slack specification
+
+Audit + repair pass.  The whole-schedule theorems above hold unconditionally only for `slack = 1` — which no real
+LAMMPS dump has (`dump custom` ends atom lines with `"id \n"`: slack 2) — and otherwise under the cut guard `tbFree`,
+because `lmpStages` knows only a one-byte lag.  `lmpStagesS` (Model/ReadersSlack.lean) takes every frame as
+`(len, slack)` and keeps, between polls, how many bytes of the last returned frame's line end have not been consumed
+(`miss`); with it the guard disappears. -/
+
+/-- **Exactness of `lammpstrj_reader` (code as it is now) for EVERY byte cut, any white space behind the trailing
+    ids** (contains NO EXCEPTION): for every well-formed LAMMPS trajectory and every list of cut points the reader
+    polled on the growing file returns, poll by poll, exactly what `lmpStagesS` says.  No guard on the cuts, no
+    condition on `slack` (cf. `lmp_exact`, `lmp_exact_trailing_partial`). -/
+theorem lmp_exact_any_slack (N : Nat) (hN : 1 ≤ N) (frames : List LmpF) (hwf : ∀ f ∈ frames, f.WF N)
+    (cuts : List Nat) :
+    pollAll (lmpReader .repaired) (lmpContent frames) cuts 0
+      = .ok (lmpStagesS (frOf frames) (lmpDecoded N frames) cuts 0 0) := by
+  have := lmp_pollAllS N hN frames hwf cuts 0 0 (Nat.zero_le _) (by intro h; exact absurd rfl h)
+  simpa [endOf_zero, lmpContent, lmpDecoded] using this
+
+/-- non-vacuity on the trailing-blank witness (`slack = 2`), with the cuts 41 and 84 that `tbFree` excludes: the
+    frame is returned at 41; 42 (only the blank) changes nothing; the poll that sees the newline skips the line end;
+    frame 2 is returned at 84 = 86 − 2 -/
+example : (∀ f ∈ [wLT, wLT], f.WF 1) ∧ ¬ tbFree [wLT, wLT] 41 ∧ frOf [wLT, wLT] = [(43, 2), (43, 2)]
+    ∧ pollAll (lmpReader .repaired) (lmpContent [wLT, wLT]) [41, 42, 50, 84, 85, 86, 86] 0
+        = .ok [[wLT.decode 1], [], [], [wLT.decode 1], [], [], []]
+    ∧ lmpStagesS [(43, 2), (43, 2)] [0, 1] [41, 42, 50, 84, 85, 86, 86] 0 0 = [[0], [], [], [1], [], [], []] := by
+  refine ⟨wLTs_wf, ?_, by decide, by decide, by decide⟩
+  simp only [tbFree]; decide
+
+/-- **SAFETY of the stage behaviour, any slack**: for non-decreasing cuts, after every poll the frames returned so
+    far are a prefix of the trajectory (each once, in order), and all their bytes were visible at that poll except
+    `miss` bytes that lie inside the slack of the last returned frame — the white space and the newline behind the
+    trailing id of its last atom line, never a byte of a value (no torn frame). -/
+theorem lmpStagesS_safety {F : Type} (fr : List (Nat × Nat)) (dec : List F) (cuts : List Nat)
+    (hs : cuts.Pairwise (· ≤ ·)) (k : Nat) (hk : k < cuts.length) :
+    ∃ d miss, ((lmpStagesS fr dec cuts 0 0).take (k + 1)).flatten = dec.take d ∧ d ≤ fr.length
+      ∧ endOf fr d ≤ cuts[k] + miss ∧ (miss = 0 ∨ (1 ≤ d ∧ ∃ f, fr[d - 1]? = some f ∧ miss ≤ f.2)) := by
+  have hsplit : cuts = cuts.take (k + 1) ++ cuts.drop (k + 1) := (List.take_append_drop _ _).symm
+  have hsp : (0 :: cuts.take (k + 1)).Pairwise (· ≤ ·) :=
+    List.pairwise_cons.mpr ⟨fun _ _ => Nat.zero_le _, hs.sublist (List.take_sublist _ _)⟩
+  have hv : LInvS fr 0 0 0 := ⟨Nat.zero_le _, by simp [endOf_zero], Or.inl rfl⟩
+  obtain ⟨h1, h2⟩ := lmpS_run fr dec (cuts.take (k + 1)) 0 0 0 hsp hv
+  have hlast : (0 :: cuts.take (k + 1)).getLast? = some cuts[k] := by
+    rw [List.take_succ_eq_append_getElem hk, ← List.cons_append, List.getLast?_concat]
+  obtain ⟨g1, g2, g3⟩ := h2 cuts[k] (by rw [hlast]; rfl)
+  refine ⟨_, _, ?_, g1, g2, g3⟩
+  rw [hsplit, lmpStagesS_append]
+  have hl : (lmpStagesS fr dec (cuts.take (k + 1)) 0 0).length = k + 1 := by
+    rw [lmpStagesS_length]; simp; omega
+  rw [List.take_append_of_le_length (by omega), List.take_of_length_le (by omega)]
+  simpa using h1
+
+/-- **COMPLETENESS of the stage behaviour, any slack**: after two polls that see the complete file every frame has
+    been returned — one poll may be spent on a line end that arrived late. -/
+theorem lmpStagesS_complete {F : Type} (fr : List (Nat × Nat)) (dec : List F) (hlen : dec.length = fr.length)
+    (pre : List Nat) (T : Nat) (hs : (pre ++ [T, T]).Pairwise (· ≤ ·)) (hT : sumLens (fr.map Prod.fst) ≤ T) :
+    (lmpStagesS fr dec (pre ++ [T, T]) 0 0).flatten = dec := by
+  have hsp : (0 :: (pre ++ [T, T])).Pairwise (· ≤ ·) := List.pairwise_cons.mpr ⟨fun _ _ => Nat.zero_le _, hs⟩
+  have hv : LInvS fr 0 0 0 := ⟨Nat.zero_le _, by simp [endOf_zero], Or.inl rfl⟩
+  obtain ⟨h1, _⟩ := lmpS_run fr dec (pre ++ [T, T]) 0 0 0 hsp hv
+  rw [lmpFinalS_append, lmpS_final_polls fr T hT _ _ (lmpFinalS_le fr pre 0 0 (Nat.zero_le _)), ← hlen,
+    List.take_length] at h1
+  simpa using h1
+
+example : [41, 86, 86].Pairwise (· ≤ ·) ∧ sumLens ([(43, 2), (43, 2)].map Prod.fst) ≤ 86
+    ∧ (lmpStagesS [(43, 2), (43, 2)] [0, 1] ([41] ++ [86, 86]) 0 0).flatten = [0, 1] := by decide
+
+/-- **SAFETY, NO EXCEPTION and COMPLETENESS of `lammpstrj_reader` (code as it is now) in one statement about the
+    reader itself, for every non-decreasing schedule of byte cuts and any white space behind the trailing ids** — no
+    guard (supersedes `lmp_safety_complete_trailing_partial`; `lmp_safety_complete` is the case `miss ≤ 1`). -/
+theorem lmp_safety_complete_any_slack (N : Nat) (hN : 1 ≤ N) (frames : List LmpF) (hwf : ∀ f ∈ frames, f.WF N)
+    (cuts : List Nat) (hs : cuts.Pairwise (· ≤ ·)) :
+    ∃ stages, pollAll (lmpReader .repaired) (lmpContent frames) cuts 0 = .ok stages
+      ∧ stages.length = cuts.length
+      ∧ (∀ k (hk : k < cuts.length), ∃ d miss,
+          (stages.take (k + 1)).flatten = (lmpDecoded N frames).take d ∧ d ≤ frames.length
+          ∧ sumLens ((lmpLens frames).take d) ≤ cuts[k] + miss
+          ∧ (miss = 0 ∨ (1 ≤ d ∧ ∃ f, frames[d - 1]? = some f ∧ miss ≤ f.slack)))
+      ∧ (∀ pre T, cuts = pre ++ [T, T] → (lmpContent frames).length ≤ T →
+          stages.flatten = lmpDecoded N frames) := by
+  refine ⟨_, lmp_exact_any_slack N hN frames hwf cuts, lmpStagesS_length _ _ _ _ _, ?_, ?_⟩
+  · intro k hk
+    obtain ⟨d, miss, h1, h2, h3, h4⟩ := lmpStagesS_safety (frOf frames) (lmpDecoded N frames) cuts hs k hk
+    refine ⟨d, miss, h1, by simpa [frOf] using h2, by rw [endOf_frOf] at h3; exact h3, ?_⟩
+    rcases h4 with h4 | ⟨h5, g, h6, h7⟩
+    · exact Or.inl h4
+    · right
+      simp only [frOf, List.getElem?_map, Option.map_eq_some_iff] at h6
+      obtain ⟨f0, hf0, hg⟩ := h6
+      exact ⟨h5, f0, hf0, by rw [← hg] at h7; exact h7⟩
+  · intro pre T hc hT
+    subst hc
+    apply lmpStagesS_complete _ _ (by simp [lmpDecoded, frOf]) pre T hs
+    rw [lmpContent, flatten_lenc_length] at hT
+    rw [frOf_fst]
+    exact hT
+
+example : (1 ≤ 1) ∧ (∀ f ∈ [wLT, wLT], f.WF 1) ∧ [41, 84, 86, 86].Pairwise (· ≤ ·)
+    ∧ [41, 84, 86, 86] = [41, 84] ++ [86, 86] ∧ (lmpContent [wLT, wLT]).length ≤ 86 := by
+  refine ⟨by decide, wLTs_wf, by decide, rfl, by decide⟩
+
+/-- the one-byte-lag specification of `lmp_exact` is the case "every slack = 1" of the per-frame-slack
+    specification: on such trajectories `lmp_exact_any_slack` and `lmp_exact` say the same -/
+theorem lmpStagesS_eq_lmpStages_of_slack_one (N : Nat) (frames : List LmpF) (hntb : ∀ f ∈ frames, f.slack = 1)
+    (cuts : List Nat) :
+    lmpStagesS (frOf frames) (lmpDecoded N frames) cuts 0 0
+      = lmpStages (lmpLens frames) (lmpDecoded N frames) cuts 0 false := by
+  have h : ∀ g ∈ frOf frames, g.2 = 1 := by
+    intro g hg
+    simp only [frOf, List.mem_map] at hg
+    obtain ⟨f, hf, rfl⟩ := hg
+    exact hntb f hf
+  have := lmpStagesS_slack_one (frOf frames) h (lmpDecoded N frames) cuts 0 false
+  simpa [frOf_fst, lmpLens] using this
+
+example : (∀ f ∈ wLmpFrames, f.slack = 1) ∧ frOf wLmpFrames = [(42, 1), (52, 1)] := by
+  refine ⟨?_, by decide⟩
+  intro f hf
+  simp only [wLmpFrames, List.mem_cons, List.not_mem_nil, or_false] at hf
+  rcases hf with rfl | rfl <;> decide
+
+/-- **the reader OBJECT with `lammpstrj_reader` (code as it is now): frames and `current_position` after every
+    poll, for ANY sequence of polls of an append-only file (absent, any prefix, in any order) and any white space
+    behind the trailing ids** — no guard (cf. `rp_lmp_exact_pos`, `rp_lmp_exact_pos_trailing_partial`):
+    `current_position` is the end of the last frame returned, minus the bytes of its line end that were not visible
+    when it was returned and have not been skipped yet — never inside a value, never inside another frame. -/
+theorem rp_lmp_exact_pos_any_slack (N : Nat) (hN : 1 ≤ N) (frames : List LmpF) (hwf : ∀ f ∈ frames, f.WF N)
+    (evs : List (Option Nat)) :
+    stagesPos (rpRun (lmpReaderO .repaired) (visible (lmpContent frames) evs) rpInit)
+      = .ok (lmpStagesPosS (frOf frames) (lmpDecoded N frames) evs 0 0) := by
+  have := lmp_rpRun_posS N hN frames hwf evs 0 0 (Nat.zero_le _) (by intro h; exact absurd rfl h) 0
+  simpa [endOf_zero, lmpContent, lmpDecoded, rpInit] using this
+
+/-- file absent; frame 1 up to its last id (41 = 43 − 2, the cut `tbFree` excludes); absent; only the blank; the
+    newline (skip poll); frame 2 up to its last id (84); everything; no growth -/
+example : (∀ f ∈ [wLT, wLT], f.WF 1) ∧
+    stagesPos (rpRun (lmpReaderO .repaired)
+        (visible (lmpContent [wLT, wLT]) [none, some 41, none, some 42, some 43, some 84, some 86, some 86]) rpInit)
+      = .ok [([], 0), ([wLT.decode 1], 41), ([], 41), ([], 41), ([], 43), ([wLT.decode 1], 84), ([], 86), ([], 86)] :=
+  ⟨wLTs_wf, by decide⟩
+
+/-- **SAFETY, NO EXCEPTION and COMPLETENESS of the LAMMPS reader object over any non-decreasing schedule of polls,
+    any white space behind the trailing ids** — no guard (supersedes the hypothesis `hfree` of
+    `rp_lmp_safety_complete`). -/
+theorem rp_lmp_safety_complete_any_slack (N : Nat) (hN : 1 ≤ N) (frames : List LmpF) (hwf : ∀ f ∈ frames, f.WF N)
+    (evs : List (Option Nat)) (hs : (evs.map visBytes).Pairwise (· ≤ ·)) :
+    ∃ stages, rpRun (lmpReaderO .repaired) (visible (lmpContent frames) evs) rpInit = .ok stages
+      ∧ stages.length = evs.length
+      ∧ (∀ k (hk : k < (evs.map visBytes).length), ∃ d miss,
+          ((stages.map Prod.fst).take (k + 1)).flatten = (lmpDecoded N frames).take d ∧ d ≤ frames.length
+          ∧ sumLens ((lmpLens frames).take d) ≤ (evs.map visBytes)[k] + miss
+          ∧ (miss = 0 ∨ (1 ≤ d ∧ ∃ f, frames[d - 1]? = some f ∧ miss ≤ f.slack)))
+      ∧ (∀ pre T, evs.map visBytes = pre ++ [T, T] → (lmpContent frames).length ≤ T →
+          (stages.map Prod.fst).flatten = lmpDecoded N frames) := by
+  have hab := rpRun_absent_as_empty (lmpReaderO .repaired) (lmpReaderO_empty .repaired) (lmpContent frames) evs rpInit
+  have hpa := (rp_eq_pollAll .repaired (lmpContent frames) (evs.map visBytes)).2
+  rw [← hab] at hpa
+  obtain ⟨st0, h0, h1, h2, h3⟩ := lmp_safety_complete_any_slack N hN frames hwf (evs.map visBytes) hs
+  rw [h0] at hpa
+  cases hr : rpRun (lmpReaderO .repaired) (visible (lmpContent frames) evs) rpInit with
+  | error e => rw [hr] at hpa; simp [stagesFrames] at hpa
+  | ok stages =>
+    rw [hr] at hpa
+    simp only [stagesFrames, Except.ok.injEq] at hpa
+    refine ⟨stages, rfl, ?_, ?_, ?_⟩
+    · have := congrArg List.length hpa
+      simpa [h1] using this
+    · intro k hk
+      rw [hpa]
+      exact h2 k hk
+    · intro pre T hc hle
+      rw [hpa]
+      exact h3 pre T hc hle
+
+example : ([none, some 41, some 84, some 86, some 86].map visBytes) = [0, 41, 84] ++ [86, 86]
+    ∧ ([none, some 41, some 84, some 86, some 86].map visBytes).Pairwise (· ≤ ·) := by decide
 
 end Infretis.C13
